@@ -1,8 +1,10 @@
-"""T generator for history.py: the pure integer index helper `_history_physical_index`.
+"""T generator for history.py: `_history_physical_index`, `_history_find_index` (while loop over a read-only
+array, modelled as a total function Z -> Z -> S) and `_history_read_scalar`.
 
-The other helpers of history.py (`_history_find_index`, `_history_read_*`, `_history_insert_*`) use a
-`while` loop and in-place writes to a `wp.array2d`, which are outside the translator's subset; they are
-hand-modelled in coq/Model/History.v and tied to /repo by the correspondence check of C30 (every run)."""
+The insert helpers write into a `wp.array2d` in place, which is outside the translator's @wp.func subset; they
+(and the vector read) are hand-modelled in coq/Model/History.v and tied to /repo by the correspondence check of
+C30 on every run.  Model/History.v uses the translated `_history_physical_index` directly; Proof/History.v proves
+that the model's find_index equals the translated `_history_find_index` on the encoded buffer."""
 
 from __future__ import annotations
 
@@ -22,7 +24,8 @@ def gen_history():
   import mujoco_warp._src.history as hh
 
   tr = T.Translator()
-  tr.want(hh.__name__, "_history_physical_index")
+  for fn in ("_history_physical_index", "_history_find_index", "_history_read_scalar"):
+    tr.want(hh.__name__, fn)
   tr.emit(os.path.join(vlib.COQ, "Gen", "history.v"), "")
   _cache["history"] = tr
   return tr
